@@ -158,6 +158,23 @@ def wait_accept():
     }}
 
 
+def fanout_dup(nw=2, n=3):
+    """a sends n EQUAL-VALUED events (same uid, same payload) to b (nw workers): invocations must still be told apart by
+    their worker slot, not by their event."""
+    return {"timeout": None, "steps": {
+        "a": {"accepts": ["Start"], "nw": 1, "body": [{"op": "send", "ty": "A", "n": n, "same": True}, G, {"op": "none"}]},
+        "b": {"accepts": ["A"], "nw": nw, "returns": ["Stop"], "body": [G, {"op": "none"}]},
+    }}
+
+
+def overlap_retry(nw_b=1, nw_c=1, n=2):
+    """b and c both accept A; b fails once and is retried: the retry belongs to b alone."""
+    p = overlap(nw_b, nw_c, n)
+    p["steps"]["b"]["retry"] = {"max": 3, "wait": ["fixed", 0]}
+    p["steps"]["b"]["body"] = [G, {"op": "fail", "until": 1}, {"op": "ret", "ty": "B"}]
+    return p
+
+
 def family(name, quick=True):
     """Lists of (label, prog, ext_menu) per property family."""
     out = []
@@ -167,6 +184,10 @@ def family(name, quick=True):
         for (nw, n, r, d, f) in grid:
             out.append(("fanout(nw=%d,n=%d,retry=%s,delay=%s,fail=%d)" % (nw, n, r, d, f),
                         fanout(nw, n, r, d, f, timeout=100), []))
+    elif name == "equal_events":
+        out.append(("fanout_dup(2,3)", fanout_dup(2, 3), []))
+        if not quick:
+            out.append(("fanout_dup(3,4)", fanout_dup(3, 4), []))
     elif name == "routing":
         out.append(("overlap(1,2,2)", overlap(1, 2, 2), [("A", None), ("D", None)]))
         out.append(("targeted(2)", targeted(2), [("A", "c"), ("A", None), ("D", None)]))
@@ -175,6 +196,7 @@ def family(name, quick=True):
             out.append(("targeted(3)", targeted(3), [("A", "c"), ("A", None)]))
         out.append(("ask", ask(), [("Resp", None), ("A", None)]))
         out.append(("wait_accept", wait_accept(), [("Resp", None)]))
+        out.append(("overlap_retry(1,1,2)", overlap_retry(1, 1, 2), []))
     elif name == "collect":
         grid = [(2, ("A", "A"), 3, False), (2, ("A", "B"), 3, False), (1, ("A", "A"), 3, False), (2, ("A", "A"), 4, True)]
         if not quick:
@@ -195,6 +217,8 @@ def family(name, quick=True):
                 out.append(("handlers(%s,max_rec=%d)" % (layout, max_rec), handlers(layout, max_rec), []))
         out.append(("handlers(scoped,reenter,2)", handlers("scoped", 2, reenter=True), []))
         out.append(("handlers(wildcard,handler_fails)", handlers("wildcard", 1, handler_fails=True), []))
+        out.append(("handlers(both,scoped handler fails)", handlers("both", 1, handler_fails=True), []))
+        out.append(("handlers(wildcard,handler_fails,max_rec=2)", handlers("wildcard", 2, handler_fails=True), []))
         out.append(("handlers(scoped,novalidation)", handlers("scoped", 1, validation=False), []))
         out.append(("handlers(wildcard,novalidation)", handlers("wildcard", 2, validation=False), []))
         if not quick:
@@ -221,6 +245,19 @@ def family(name, quick=True):
         out.append(("stop_after_attempt(2),fixed(1),handler", ph, []))
         out.append(("non-retryable", pipeline(retry_max=3, delay=1, fail_until=99, exc="KeyError", retry_on=["ValueError"]), []))
         out.append(("retryable typed", pipeline(retry_max=2, delay=1, fail_until=99, exc="ValueError", retry_on=["ValueError"]), []))
+        # two inputs for a single-worker failing step: a delayed retry arrives while the worker is busy with the other input
+        q2 = fanout(1, 2, 3, 2, 99)
+        q2["steps"].pop("c")
+        q2["steps"]["b"]["body"] = [G, {"op": "fail", "until": 99}, {"op": "stop"}]
+        out.append(("two inputs, nw=1, stop_after_attempt(3),fixed(2)", q2, []))
+        q3 = fanout(1, 2, None, 2, 99)
+        q3["steps"].pop("c")
+        q3["steps"]["b"]["retry"] = {"max": None, "stop_delay": 5, "wait": ["fixed", 2]}
+        q3["steps"]["b"]["body"] = [G, {"op": "fail", "until": 99}, {"op": "stop"}]
+        out.append(("two inputs, nw=1, stop_after_delay(5),fixed(2)", q3, []))
+        ptd = pipeline(retry_max=None, stop_delay=2.5, delay=1, fail_until=99)
+        ptd["steps"]["b"]["retry"]["stop_delay_td"] = True
+        out.append(("stop_after_delay(timedelta 2.5s),fixed(1)", ptd, []))
         for sd in ((3,) if quick else (1, 3, 6)):
             out.append(("stop_after_delay(%d),fixed(2)" % sd, pipeline(retry_max=None, stop_delay=sd, delay=2, fail_until=99), []))
     elif name == "resume":
@@ -235,6 +272,7 @@ def family(name, quick=True):
         out.append(("incr(6,-2,max=100)", pipeline(retry_max=4, wait=["incr", 6, -2, 100], fail_until=99), []))
         out.append(("incr(1,2,max=4)", pipeline(retry_max=5, wait=["incr", 1, 2, 4], fail_until=99), []))
         out.append(("fixed(3)", pipeline(retry_max=3, wait=["fixed", 3], fail_until=99), []))
+        out.append(("fixed(timedelta 1500ms)", pipeline(retry_max=3, wait=["fixed_td", 1500], fail_until=99), []))
     return out
 
 
